@@ -28,7 +28,7 @@ from lerax.callback.logging import LoggingCallbackStepState
 from mc import collect, learnx, refs
 from mc.core import Ctx, key_ints
 from mc.mdp import reward_table
-from mc.policies import ScriptedAC, ScriptedQ
+from mc.policies import ScriptedSAC, ScriptedAC, ScriptedQ
 
 LEVEL = "model_checking"
 
@@ -229,6 +229,8 @@ def clause_learn_log(cases, ctx: Ctx):
         if sk not in _DRV:
             if name == "DQN":
                 algo0 = learnx.make_algo("DQN", E, Tn, learning_rate=0.0, learning_starts=c["learning_starts"], buffer_size=64, batch_size=1, gamma=c["gamma"])
+            elif name == "SAC":
+                algo0 = learnx.make_algo("SAC", E, Tn, learning_starts=c["learning_starts"], buffer_size=64, batch_size=1, gamma=c["gamma"], q_width_size=4, q_depth=1)
             else:
                 algo0 = learnx.make_algo(name, E, Tn, learning_rate=0.0, gamma=c["gamma"])
             be0 = learnx.RecordingBackend()
@@ -236,8 +238,8 @@ def clause_learn_log(cases, ctx: Ctx):
         algo, be, cb = _DRV[sk]
         jax.effects_barrier()
         be.records.clear()
-        pol = ScriptedQ(env, np.asarray(c["script"])) if name == "DQN" else ScriptedAC(env, np.asarray(c["script"]))
-        warm = c["learning_starts"] if name == "DQN" else 0
+        pol = ScriptedQ(env, np.asarray(c["script"])) if name == "DQN" else (ScriptedSAC(env, c["script"]) if name == "SAC" else ScriptedAC(env, np.asarray(c["script"])))
+        warm = c["learning_starts"] if name in ("DQN", "SAC") else 0
         p2 = algo.learn(env, pol, total, key=jr.key(c["key"]), callback=[cb])
         jax.block_until_ready(jax.tree.leaves(eqx.filter(p2, eqx.is_array)))
         jax.effects_barrier()
@@ -261,7 +263,7 @@ def clause_learn_log(cases, ctx: Ctx):
             if not refs.close(got_ret, e[0], 1e-5):
                 # does it include gamma * V(successor) on truncated episodes?
                 sig = "C19/learn/episode-return"
-                if name != "DQN":
+                if name not in ("DQN", "SAC"):
                     acc2 = RefAcc(alpha)
                     V = refs.Tables([c]).V[0]
                     s_track = deterministic_states(c, warm + n_iter * Tn)
@@ -413,6 +415,11 @@ def explore(ctx: Ctx):
     for tab, sc in chosen:
         for (algo, E, Tn) in (("PPO", 2, 3), ("DQN", 1, 2)) + ((("A2C", 1, 3), ("REINFORCE", 1, 4), ("DQN", 2, 2)) if thorough else (("A2C", 1, 3),)):
             learn.append(dict(tab, algo=algo, script=sc, num_envs=E, num_steps=Tn, key=keys[0], gamma=0.5, lam=0.25, alpha=0.9, total=3 * E * Tn + 1, learning_starts=2))
+    # SAC has its own iteration(): Box actions, one-hot observations, scripted actor
+    for tab, sc in chosen[:: (1 if thorough else 3)]:
+        for (E, Tn) in (((1, 2), (2, 1)) if thorough else ((2, 2),)):
+            learn.append(dict(tab, act_kind="box", obs_kind="onehot", algo="SAC", script=[0.5 if a else -0.5 for a in sc], num_envs=E, num_steps=Tn, key=keys[0],
+                              gamma=0.5, lam=0.25, alpha=0.9, total=3 * E * Tn + 1, learning_starts=2))
     ctx.run_parallel("learn_log", learn, workers=8, group_key=lambda c: (c["algo"], bool(c.get("tl")), c["num_envs"]), threads=2)
     ctx.nontrivial |= {("learn", i) for i in range(len(learn))}
     # (iii) average_reward
